@@ -66,6 +66,7 @@ def cantera_world(src):
     world.gen_layout(src, m, tag="w")
     seed = src.draw("w.dataseed", 0, 999999)
     eb = src.draw("w.eb_cells", 0, 1)
+    flat = src.draw("w.flat_boxes", 0, 2) == 2
     rng = np.random.default_rng(seed)
     it = names.index("temp")
     iy = names.index(f"Y({sp[0]})")
@@ -79,6 +80,22 @@ def cantera_world(src):
             Y = rng.uniform(0.0, 1.0, shape + (len(sp),)) ** 3
             Y /= Y.sum(axis=-1, keepdims=True)
             arr[..., iy:iy + len(sp)] = Y
+            if flat and rng.uniform() < 0.6:
+                # a quiescent region: the box is uniform, or uniform up to a few mK and a few ppb of radicals
+                # (a "same state everywhere" shortcut must not take the second for the first)
+                T0 = rng.uniform(1200.0, 2000.0)
+                Y0 = rng.uniform(0.0, 1.0, len(sp)) ** 3
+                Y0 /= Y0.sum()
+                if rng.uniform() < 0.3:
+                    arr[..., it] = T0
+                    arr[..., iy:iy + len(sp)] = Y0
+                else:
+                    arr[..., it] = T0 * (1.0 + 1e-6 * rng.uniform(-1.0, 1.0, shape))
+                    Yb = Y0 * (1.0 + 3e-6 * rng.uniform(-1.0, 1.0, shape + (len(sp),)))
+                    rad = rng.choice(len(sp), 3, replace=False)
+                    Yb[..., rad] = rng.uniform(0.0, 5e-9, shape + (3,))
+                    Yb /= Yb.sum(axis=-1, keepdims=True)
+                    arr[..., iy:iy + len(sp)] = Yb
             if eb:
                 mask = rng.uniform(size=shape) < 0.15
                 arr[mask, it] = 0.0
